@@ -223,7 +223,7 @@ def compare_traces(ctx, c, kinds, component):
     return True
 
 
-def run_order_violation(c):
+def run_order_violation(c, strict=False):
     """C10 on a real sequential run (parent + resumed children run one after another): the order in which the
     layers' tests actually execute — across all processes, in trace-file order — is the order of the model
     (order_by_bases over the selected layers: parent's layers, then the resumed ones in spawn order)."""
@@ -240,6 +240,10 @@ def run_order_violation(c):
     for ev in c.parent_model["trace"]:
         if ev[0] in ("header", "spawn") and ev[1] not in want:
             want.append(ev[1])
+    if strict and [l for l in want if l not in real]:
+        # (fault-free worlds in which every layer has tests: each layer of the order must have run)
+        return "layers %r of the layer order %r never executed their tests (executed: %r)" % (
+            [l for l in want if l not in real], want, real)
     want = [l for l in want if l in real]
     if real != want:
         return "layers executed their tests in the order %r, the layer order is %r" % (real, want)
